@@ -108,11 +108,11 @@ CLAIMED = {
         "note": COMMON_NOTE + "A thread that opens two transactions can deadlock (documented; excluded by the model's one-transaction-per-thread discipline). The scheduler explores the admit-readers policy only (a parked resizer is not an OS-level waiter); the blocking policy is covered by the theorem. Liveness assumes a fair OS scheduler.",
     },
     "C13": {
-        "category": "other",
-        "technique": "Lean 4 invariant proofs on a process-level open/lock/close model (exclusion and visibility for every schedule and file state; no failure for existing files) + obligations on regenerated open step orders + forced system-call orderings between real processes through LD_PRELOAD parking; the create-path race is an OPEN known finding (D12) with a machine-checked witness",
-        "text": "Proved for any number of processes and every interleaving (Jamm/Props/C13.lean): at most one process is between lock-acquired and close and whoever is inside has seen every commit made before it got in (any initial file state); when the file exists and is initialised no process ever fails; an existing file is locked before it is mapped or read (decided on the regenerated order). Part (b,c) of the property is FALSE for a file that does not exist yet: it is created and initialised before the lock is taken (obligation create_path_not_locked decided false; create_race_witness is the two-process schedule) — listed in KNOWN_FINDINGS.txt as D12, reproduced on the real code on every run and printed as KNOWN-FINDING; any other failure, overlap or stale read is a VIOLATION. Tie: 2-4 real worker processes open the same file; the shim parks the first one inside a chosen libc call (open/write/fsync/mmap/close) until later openers have been started, plus unparked runs with random offsets and hold times; each commits a marker; monotonic timestamps of open-returned / about-to-close and the markers each opener sees are checked by the Lean driver. Category other because of the open finding.",
+        "category": "proof",
+        "technique": "Lean 4 invariant proofs on a process-level open/lock/initialise/close model (exclusion, visibility and absence of failure for every schedule, every number of processes and every initial file state) + obligations on the regenerated open step orders + forced orderings between real processes (LD_PRELOAD parking inside libc calls, parking once inside, holder-grows-the-file and creator-holds scenarios)",
+        "text": "Proved for any number of processes and every interleaving (Jamm/Props/C13.lean): at most one process is between lock-acquired and close and whoever is inside has seen every commit made before it got in; no opener ever fails, whether the file exists, is missing or is still empty; whoever is inside sees an initialised file. The model's step order is the regenerated one: the path is opened with create-if-missing and never tested for existence first, the lock is taken before a still empty file is initialised, initialisation comes before the map, the map before the header read (obligations decided on Gen.openOuter / initSteps / openInner). The defect D12 (a missing file used to be created and initialised before the lock was taken) was repaired in /repo (fix: commit bb0535b); the witness schedule is kept as a theorem about the pinned order, and the same schedule provably passes under the repaired order. Tie: 2-4 real worker processes open the same file; the shim parks the first one inside a chosen libc call (open/write/fsync/mmap/close) or the worker parks itself once inside, later openers are started meanwhile; scenarios include a missing file with the creator parked right after creating it, the creator holding the database, and the holder growing the file while a late opener waits; each worker commits a marker and walks what earlier holders wrote; monotonic timestamps of open-returned / about-to-close and the markers each opener sees are checked by the Lean driver.",
         "design_ref": "DESIGN.md §5 C13, §3.8",
-        "note": COMMON_NOTE + "flock semantics (same host, not NFS) assumed; flock itself is a raw syscall invisible to the shim, its effect is observed through the timestamps.",
+        "note": COMMON_NOTE + "flock semantics (one holder, same host, not NFS) are an assumption; flock itself is a raw system call invisible to the shim, its effect is observed through the timestamps. A process that dies between allocating and writing the initial pages leaves a zero-filled file that is not re-initialised (outside the property).",
     },
     "C14": {
         "category": "other",
